@@ -1,2 +1,147 @@
-(* C05 - closing theorems only. *)
-From Slim Require Import Varint Proto Semver Frame Instance Wire.
+(* C05 - Marshal/Unmarshal round trip preserves every answer and is byte-stable;
+   no residue across Unmarshal/Reset histories.  Closing theorems only.
+
+   Layer: the wire model (coq/theories/Varint, Proto, Semver, Frame, Instance,
+   Wire) with the protobuf message Slim AS DATA and the constants regenerated
+   from /repo (slimtrieVersion, compatibleVersions()).
+     marshal_gen m      = SlimTrie.Marshal() of an instance whose inner message is m
+     unmarshal_gen b    = the reading part of SlimTrie.Unmarshal(b)
+     step / run         = Unmarshal / Reset histories on one instance, state =
+                          (inner, vars = initVars(inner), levels = initLevels(inner))
+     wf_msg m           = m is a value of the Go types (uint64 / int32 / uint32
+                          ranges), has no unknown fields, body below 2^63 bytes.
+
+   What is NOT proved here (see checks/C05.json, statement_status):
+   * "answers every query identically" is proved as "the loaded instance has the
+     same (inner, vars, levels) as an instance that holds m" (C05_load_state_partial).
+     That equal states give equal answers needs the query functions of Model.v to
+     read a bit-level message, which they do not yet; on the Go side every query
+     reads only these three fields and the encoder.
+   * determinism of the BUILD (sortedBMCounts tie-break) is covered by the oracle
+     only; Marshal being a function of the message is immediate (marshal_gen is a
+     Coq function). *)
+From Coq Require Import List NArith ZArith Bool.
+From Coq.Strings Require Import Byte.
+From Slim Require Import Varint VarintProofs Proto ProtoProofs Semver Frame FrameProofs Instance InstanceProofs Wire WireProofs.
+Import ListNotations.
+Open Scope N_scope.
+
+(* varints: the reader inverts the writer on every 64-bit value *)
+Theorem C05_varint : forall n rest,
+  n < two64 -> decode_varint (encode_varint n ++ rest) = Some (n, rest).
+Proof. exact decode_encode_varint. Qed.
+Print Assumptions C05_varint.
+
+(* protobuf body: proto.Unmarshal inverts proto.Marshal on every well-formed message *)
+Theorem C05_wire_roundtrip : forall m, wf_slim m = true -> parse_slim (ser_slim m) = Some m.
+Proof. exact parse_slim_ser. Qed.
+Print Assumptions C05_wire_roundtrip.
+
+(* Marshal never fails; its length is 32 + proto.Size(inner), the size being
+   computed from the field values without serialising *)
+Theorem C05_marshal_total : forall m, exists s, marshal_gen m = Some s.
+Proof. exact marshal_gen_total. Qed.
+Print Assumptions C05_marshal_total.
+
+Theorem C05_size : forall m s,
+  marshal_gen m = Some s -> N.of_nat (length s) = 32 + size_slim m.
+Proof. exact marshal_gen_length. Qed.
+Print Assumptions C05_size.
+
+(* Unmarshal(Marshal(t)) succeeds and yields exactly t's message *)
+Theorem C05_roundtrip : forall m s,
+  wf_msg m = true -> marshal_gen m = Some s -> unmarshal_gen s = OLoaded m.
+Proof. exact roundtrip_gen. Qed.
+Print Assumptions C05_roundtrip.
+
+(* re-marshalling what was loaded reproduces the bytes *)
+Theorem C05_remarshal : forall m s m',
+  wf_msg m = true -> marshal_gen m = Some s -> unmarshal_gen s = OLoaded m' -> marshal_gen m' = Some s.
+Proof. exact remarshal_gen. Qed.
+Print Assumptions C05_remarshal.
+
+(* the instance after loading Marshal(t) into ANY instance state is the state
+   NewSlimTrie leaves for t: inner = m, vars = initVars(m), levels = initLevels(m).
+   PARTIAL with respect to "answers every query identically": see the header. *)
+Theorem C05_load_state_partial :
+  forall (Vars Levels : Type) (init_vars : slim -> Vars) (init_levels : slim -> Levels)
+         (reset_levels : Levels) (conv510 : slim -> slim) (conv3 : list byte -> list byte -> list byte -> slim)
+         (st : inst Vars Levels) m s,
+  wf_msg m = true -> marshal_gen m = Some s ->
+  fst (step compat_gen cur_gen Vars Levels init_vars init_levels reset_levels conv510 conv3 st (OpUnmarshal s))
+  = installed Vars Levels init_vars init_levels m.
+Proof. exact load_state_gen. Qed.
+Print Assumptions C05_load_state_partial.
+
+(* no residue: after ANY history of Unmarshal (valid, invalid, any layout) and
+   Reset calls from ANY state, a successful Unmarshal(b) leaves exactly the state
+   of a fresh instance that unmarshalled b (histories of any length; the property
+   asks for length <= 3) *)
+Theorem C05_no_residue :
+  forall (Vars Levels : Type) (init_vars : slim -> Vars) (init_levels : slim -> Levels)
+         (reset_levels : Levels) (conv510 : slim -> slim) (conv3 : list byte -> list byte -> list byte -> slim)
+         (h : list op) (st : inst Vars Levels) b,
+  load_ok compat_gen cur_gen b = true ->
+  run compat_gen cur_gen Vars Levels init_vars init_levels reset_levels conv510 conv3 st (h ++ [OpUnmarshal b])
+  = run compat_gen cur_gen Vars Levels init_vars init_levels reset_levels conv510 conv3
+        (fresh Vars Levels init_vars init_levels) [OpUnmarshal b].
+Proof. exact no_residue_gen. Qed.
+Print Assumptions C05_no_residue.
+
+Theorem C05_no_residue_marshal :
+  forall (Vars Levels : Type) (init_vars : slim -> Vars) (init_levels : slim -> Levels)
+         (reset_levels : Levels) (conv510 : slim -> slim) (conv3 : list byte -> list byte -> list byte -> slim)
+         (h : list op) (st : inst Vars Levels) m s,
+  wf_msg m = true -> marshal_gen m = Some s ->
+  run compat_gen cur_gen Vars Levels init_vars init_levels reset_levels conv510 conv3 st (h ++ [OpUnmarshal s])
+  = installed Vars Levels init_vars init_levels m.
+Proof. exact no_residue_marshal_gen. Qed.
+Print Assumptions C05_no_residue_marshal.
+
+(* ---- the hypotheses are satisfiable on a real message ------------------------------------
+   Message and bytes of a real trie (harness case t2 of seed 1): keys 01a2c7, 01c7,
+   a2, c7 with String16 values "", "", e9e423c3, 8f08d5, Opt{DedupValue: true}. *)
+Definition ex_msg : slim :=
+  mkSlim 0%Z 0%Z
+    (Some (mkBitmap [0x3] [0%Z] [] []))
+    (Some (mkBitmap [0x10002802] [0%Z] [] []))
+    (Some (mkBitmap [0x0] [0%Z] [] []))
+    [0]
+    (Some (mkVlen 0%Z 1%Z None 2%Z
+       [x00; x01]
+       (Some (mkBitmap [0x2] [0%Z] [] [])) []))
+    None
+    (Some (mkVlen 3%Z 3%Z (Some (mkBitmap [0x2841] [0%Z; 4%Z] [0%Z] [])) 0%Z
+       [x00; x04; xe9; xe4; x23; xc3; x00; x03; x8f; x08; xd5; x00; x00]
+       (Some (mkBitmap [0x7] [0%Z] [] [])) []))
+    [].
+
+Definition ex_bytes : list byte :=
+  [x30; x2e; x35; x2e; x31; x32; x00; x00; x00; x00; x00; x00; x00; x00; x00; x00;
+   x20; x00; x00; x00; x00; x00; x00; x00; x74; x00; x00; x00; x00; x00; x00; x00;
+   xa2; x01; x08; xa2; x01; x01; x03; xf2; x01; x01; x00; xf2; x01; x0c; xa2; x01;
+   x05; x82; xd0; x80; x80; x01; xf2; x01; x01; x00; xfa; x01; x08; xa2; x01; x01;
+   x00; xf2; x01; x01; x00; x82; x02; x01; x00; xb2; x02; x15; x58; x01; xb8; x01;
+   x02; xf2; x01; x02; x00; x01; xea; x03; x08; xa2; x01; x01; x02; xf2; x01; x01;
+   x00; xe2; x03; x30; x50; x03; x58; x03; xa2; x01; x0e; xa2; x01; x02; xc1; x50;
+   xf2; x01; x02; x00; x04; xc2; x02; x01; x00; xf2; x01; x0d; x00; x04; xe9; xe4;
+   x23; xc3; x00; x03; x8f; x08; xd5; x00; x00; xea; x03; x08; xa2; x01; x01; x07;
+   xf2; x01; x01; x00].
+
+Example ex_wf : wf_msg ex_msg = true.
+Proof. vm_compute. reflexivity. Qed.
+
+(* the model writes exactly the bytes the real Marshal() wrote *)
+Example ex_marshal_is_real : marshal_gen ex_msg = Some ex_bytes.
+Proof. vm_compute. reflexivity. Qed.
+
+Example ex_unmarshal_real : unmarshal_gen ex_bytes = OLoaded ex_msg.
+Proof. exact (C05_roundtrip ex_msg ex_bytes ex_wf ex_marshal_is_real). Qed.
+
+Example ex_size : N.of_nat (length ex_bytes) = 32 + size_slim ex_msg.
+Proof. exact (C05_size ex_msg ex_bytes ex_marshal_is_real). Qed.
+
+(* negative int32 values are 10-byte varints and survive the round trip *)
+Example ex_negative : parse_slim (ser_slim (mkSlim (-1)%Z (-2147483648)%Z None None None [4294967295] None None None []))
+                      = Some (mkSlim (-1)%Z (-2147483648)%Z None None None [4294967295] None None None []).
+Proof. vm_compute. reflexivity. Qed.
